@@ -221,6 +221,7 @@ PROPERTIES = {
                              "TS and OpenAPI generators, byte rendering by libopenapi/yaml and plugin parameters are not yet part of this check"]),
     "C16": dict(G_HTTPGEN, load_pkgs=["./internal/httpgen", "./cmd/protoc-gen-openapiv3", "./internal/openapiv3"], replay_timeout=240,
                 overlay={"internal/httpgen/zz_verif_c16.go": "harness/c16/c16_termination.go", "internal/httpgen/zz_verif_c16m.go": "harness/c16/c16_mock_maps.go",
+                         "internal/httpgen/zz_verif_c12_common.go": "harness/c12/c12_common.go", "internal/httpgen/zz_verif_c12_http.go": "harness/c12/c12_http_rules.go",
                          "internal/httpgen/zz_verif_c20w.go": "harness/c20/c20_world.go",
                          "cmd/protoc-gen-openapiv3/zz_verif_c16.go": "harness/c16main/c16_main.go",
                          "internal/openapiv3/zz_verif_c16o.go": "harness/c16/c16_openapi_any.go", "internal/openapiv3/zz_verif_c06w.go": "harness/c06/c06_wire.go"},
@@ -228,6 +229,7 @@ PROPERTIES = {
                            dict(func="VerifC16Mock", reach=["C16/mock/decided", "C16/mock/recursive"], quick=dict(budget=300, parts=8, flags=["-maxpaths", "100000"]), thorough=dict(budget=900, parts=16, flags=["-maxpaths", "400000"])),
                            dict(func="VerifC16DeepDiamond", reach=["C16/diamond/decided"], quick=dict(budget=100), thorough=dict(budget=300)),
                            dict(func="VerifC16MockMapCycles", reach=["C16/mock-maps/decided"], quick=dict(budget=200), thorough=dict(budget=600)),
+                           dict(func="VerifC16AnswersForAnyHTTPConfig", reach=["C16/http-config/decided"], quick=dict(budget=300, parts=8, flags=["-maxpaths", "200000"]), thorough=dict(budget=900, parts=16, flags=["-maxpaths", "400000"])),
                            dict(func="VerifC16NameKernelsSnake", reach=["C16/kernels/snake"], quick=dict(budget=200), thorough=dict(budget=600)),
                            dict(func="VerifC16NameKernelsHeader", reach=["C16/kernels/header"], quick=dict(budget=200), thorough=dict(budget=600)),
                            dict(func="VerifC16NameKernelsCamel", reach=["C16/kernels/camel"], quick=dict(budget=200), thorough=dict(budget=600)),
@@ -235,7 +237,7 @@ PROPERTIES = {
                                 reach=["C16/openapi-any/decided"], quick=dict(budget=200, parts=4), thorough=dict(budget=600, parts=8)),
                            dict(func="VerifC16MainSetup", pkgpath=MOD + "/cmd/protoc-gen-openapiv3", test_pkg="./cmd/protoc-gen-openapiv3", test_pkgname="main",
                                 reach=["C16/main/setup-error-returned", "C16/main/setup-ok"], quick=dict(budget=100), thorough=dict(budget=300))],
-                bounds_text={"quick": "message graphs: 3 messages x 2 message-typed fields each with arbitrary targets (direct and mutual recursion included), second edge singular or repeated; budgets: tscommon 60k, generators 3M executed SSA instructions and call depth 120; deep diamond: 16 levels x 2 references; name kernels: strings <= 4-5 over [ab_], [aAX-], [aAZ0]; openapiv3 main: Options.New stubbed with an arbitrary (plugin | error) result"},
+                bounds_text={"quick": "message graphs: 3 messages x 2 message-typed fields each with arbitrary targets (direct and mutual recursion included), second edge singular or repeated; budgets: tscommon 60k, generators 3M executed SSA instructions and call depth 120; HTTP configurations: the rule space of C12/R9 (verb x path variable x query annotations x field kinds, valid or not) through go-http, go-http+mock and go-client; deep diamond: 16 levels x 2 references; name kernels: strings <= 4-5 over [ab_], [aAX-], [aAZ0]; openapiv3 main: Options.New stubbed with an arbitrary (plugin | error) result"},
                 assumptions=["termination is decided as 'finishes within a stated work budget and call depth on every graph in the bound' - wall time and memory as such are not measured",
                              "openapiv3: CollectReferencedMessages (incl. processMessage over real libopenapi objects) and the main set-up path are covered; ProcessService/Render are not"]),
     "C13": dict(G_HTTPGEN,
